@@ -4,54 +4,56 @@ CFG = {'lean_modules': ['ObiVerif.Props.C11'],
  'gen': True,
  'thorough_seeds': 8,
  'rule': 'cases = (forward primer, reverse primer, two error budgets, min/max length, extension (-1 = none), only-full-extension, circular, batch of '
-         'templates) for one call of obiapat.PCRSlice: hand-picked corpus (every defect found; sites at both ends, touching / overlapping / one symbol '
-         'apart, empty and shorter-than-primer templates, IUPAC primers of different lengths, upper case and ambiguous template symbols, many hits, '
-         'clipped and complete flanks, batches long-short-long, circular templates with the amplicon / the forward site / the reverse site across the '
-         'origin, sites overlapping across the origin, flanks reaching before the origin / past the end, circular templates shorter than 64); random '
-         'primers of 2..10 (sometimes 12..31) IUPAC positions with different lengths in 3 cases out of 4, budgets 0..2, 1..5 templates of 0..120 '
-         'symbols (circular: 64..143, a few shorter) over acgt (sometimes with n, IUPAC codes, upper case, or a 2-letter alphabet giving many hits) '
-         'with 0..3 planted site pairs in either orientation carrying 0..e+1 substitutions each, gap -3..25 (0, 1 and negative gaps forced in 3 cases '
-         'out of 10; on circular templates also gaps that make the product as long as the circle), at offset 0 / at the end / wrapping the origin in a '
-         'fixed fraction of the cases; min/max chosen around a planted gap (g,g / g+1,0 / 0,g-1 / 0,g+k / random); extension in {-1,0,1,2,3,5,10,30}; '
-         'frag: generic obiiter.IFragments parameters then PCRSlice over the fragments; cli: obipcr.CLIPCR --fragmented (options set through the verif '
-         'hook) on templates of more than 1000 x max length with products of maximal length planted just before the fragment ends. non-trivial = '
-         'distinct case other than an empty single template / a primer of 64 positions',
- 'technique': 'Lean 4 theorems on a transcription of _Pcr over the proved matcher model of C10 and the proved Subsequence / reverse-complement model of C07 '
-              '+ differential correspondence with the real cgo-backed PCRSlice (amplicons in the order returned, id coordinates, nucleotides, match strings, '
+         'templates) for one call of obiapat.PCRSlice: hand-picked corpus (every defect found; sites at both ends, touching / overlapping / one symbol apart, '
+         'empty and shorter-than-primer templates, IUPAC primers of different lengths, upper case and ambiguous template symbols, many hits, clipped and '
+         'complete flanks, batches long-short-long, circular templates with the amplicon / the forward site / the reverse site across the origin, sites '
+         'overlapping across the origin, flanks reaching before the origin / past the end, circular templates shorter than 64); random primers of 2..10 '
+         '(sometimes 12..31) IUPAC positions with different lengths in 3 cases out of 4, budgets 0..2, 1..5 templates of 0..120 symbols (circular: 64..143, a '
+         'few shorter) over acgt (sometimes with n, IUPAC codes, upper case, or a 2-letter alphabet giving many hits) with 0..3 planted site pairs in either '
+         'orientation carrying 0..e+1 substitutions each, gap -3..25 (0, 1 and negative gaps forced in 3 cases out of 10; on circular templates also gaps that '
+         'make the product as long as the circle), at offset 0 / at the end / wrapping the origin in a fixed fraction of the cases; min/max chosen around a '
+         'planted gap (g,g / g+1,0 / 0,g-1 / 0,g+k / random); extension in {-1,0,1,2,3,5,10,30}; frag: generic obiiter.IFragments parameters then PCRSlice '
+         'over the fragments; cli: obipcr.CLIPCR --fragmented (options set through the verif hook) on templates of more than 1000 x max length with products '
+         'of maximal length planted just before the fragment ends. non-trivial = distinct case other than an empty single template / a primer of 64 positions',
+ 'technique': 'Lean 4 theorems on a transcription of _Pcr over the proved matcher model of C10 and the proved Subsequence / reverse-complement model of C07 + '
+              'differential correspondence with the real cgo-backed PCRSlice (amplicons in the order returned, id coordinates, nucleotides, match strings, '
               'error counts) + independent oracle: brute force over all position pairs with a Hamming matcher written from the IUPAC table, and three '
               'relations between real runs (reverse-complemented templates, rotated circular templates, each template alone vs in its batch)',
- 'level_text': 'Proved for every LINEAR template, every primer pair of 1..63 positions each (IUPAC classes, negations, obligatory positions; the two '
-               'primers may have different lengths), every budget, every min/max/extension/only-full setting: pcr_total (no log.Fatalf, no panic), '
-               'pcr_sound (every reported record is mkAmp of a site of one primer and a site of the complement of the other one located downstream, at '
-               'least one symbol apart, length within the bounds, window = segment between the sites or sites + flanks clipped / required complete; '
-               'forward orientation as is, reverse orientation reverse-complemented; match strings in primer orientation; error counts = Hamming costs; '
-               'field-level reading in mkAmp_forward_fields / mkAmp_reverse_fields), pcr_complete (every such pair is reported, in both orientations: the '
-               'window of the second search, computed with reverse.Len() in both blocks, never hides an admissible site), pcr_nodup (each pair once), '
-               'pcr_strand_symmetry / pcr_strand_symmetry_obs (templates over the 15 IUPAC nucleotide symbols: the PCR of the reverse complement is, as a '
-               'multiset, the PCR of the template with the direction flipped — same nucleotides, match strings and error counts; from C10 hamCost_rc and '
-               "C07 rc_subseq / rc_rc; hypothesis: the complemented patterns carry the mirrored code lists, which C10 checks by oracle on every pattern). "
-               'NOT proved (stated in full in Props/C11.lean, tied by correspondence and by the oracle on every circular case): soundness / completeness on '
-               'circular templates, pcr_rotation, strand symmetry on circular templates. The batch is a map over the templates in the model; that the '
-               'recycled C buffer does not leak from one template to the next is checked on the real code (each template alone = in its batch).',
+ 'level_text': 'Proved for every LINEAR template, every primer pair of 1..63 positions each (IUPAC classes, negations, obligatory positions; the two primers '
+               'may have different lengths), every budget, every min/max/extension/only-full setting: pcr_total (no log.Fatalf, no panic), pcr_sound (every '
+               'reported record is mkAmp of a site of one primer and a site of the complement of the other one located downstream, at least one symbol apart, '
+               'length within the bounds, window = segment between the sites or sites + flanks clipped / required complete; forward orientation as is, reverse '
+               'orientation reverse-complemented; match strings in primer orientation; error counts = Hamming costs; field-level reading in '
+               'mkAmp_forward_fields / mkAmp_reverse_fields), pcr_complete (every such pair is reported, in both orientations: the window of the second '
+               'search, computed with reverse.Len() in both blocks, never hides an admissible site), pcr_nodup (each pair once), pcr_strand_symmetry / '
+               'pcr_strand_symmetry_obs (templates over the 15 IUPAC nucleotide symbols: the PCR of the reverse complement is, as a multiset, the PCR of the '
+               'template with the direction flipped — same nucleotides, match strings and error counts; from C10 hamCost_rc and C07 rc_subseq / rc_rc; '
+               'hypothesis: the complemented patterns carry the mirrored code lists, which C10 checks by oracle on every pattern). CIRCULAR templates '
+               '(deepening round; hypothesis PrimersFit: no pattern longer than the template, true for every template of >= 64 symbols): '
+               'findAllIndex_exact_circular, pcr_total_circular, pcr_sound_circular, pcr_complete_circular, pcr_rotation / pcr_rotation_mem / '
+               'pcr_rotation_perm (rotating the template rotates the coordinates and leaves the multiset of amplicons unchanged), pcr_strand_symmetry_circular '
+               '/ _obs. The batch is a map over the templates in the model; that the recycled C buffer does not leak from one template to the next is checked '
+               'on the real code (each template alone = in its batch).',
  'level_note': 'Trusted: Lean kernel; the transcription Model/Pcr.lean (validated differentially, order of the amplicons included) and, through it, '
-               'Model/Apat.lean and Model/SeqOps.lean; the C compiler. The model follows the code as repaired by the four C11 patches (reverse block '
-               'circular length, circular extension before the origin, sites overlapping across the origin, fragment overlap of obipcr). Out of the '
-               "oracle's scope (correspondence only): a circular window sites + flanks longer than the circle (Subsequence silently returns the window "
-               'modulo the length), primers written with the extended grammar ([..], !, #). Circular templates shorter than 64 symbols: the C encoder reads '
-               '64 symbols whatever the length (C10 note); results are compared when no primer is longer than the template (the bytes read past the end '
-               'cannot be seen then), otherwise printed as `unmodelled`. Primers of 64 positions: `unmodelled` (C10 finding patlen64). obipcr --fragmented '
-               'reports an amplicon lying in the overlap of two fragments twice, and with --delta without --only-complete-flanking a fragment end clips a '
-               'flank like a template end (signature cli.clipped-flank / frag.clipped-flank, proposed as an open finding).',
- 'trusted_base': LEAN_TB + ['extract/ (tables of C10 / C07)', 'C compiler translation of the obiapat C sources',
-                            'brute-force Hamming matcher, IUPAC table and reverse complement written independently in harness/c11.go',
-                            'pkg/obitools/obipcr/verif_hooks.go (sets the option variables of obipcr)'],
+               'Model/Apat.lean and Model/SeqOps.lean; the C compiler. The model follows the code as repaired by the four C11 patches (reverse block circular '
+               "length, circular extension before the origin, sites overlapping across the origin, fragment overlap of obipcr). Out of the oracle's scope "
+               '(correspondence only): a circular window sites + flanks longer than the circle (Subsequence silently returns the window modulo the length), '
+               'primers written with the extended grammar ([..], !, #). Circular templates shorter than 64 symbols: the C encoder reads 64 symbols whatever '
+               'the length (C10 note); results are compared when no primer is longer than the template (the bytes read past the end cannot be seen then), '
+               'otherwise printed as `unmodelled`. Primers of 64 positions: `unmodelled` (C10 finding patlen64). obipcr --fragmented reports an amplicon lying '
+               'in the overlap of two fragments twice, and with --delta without --only-complete-flanking a fragment end clips a flank like a template end '
+               '(signature cli.clipped-flank / frag.clipped-flank, proposed as an open finding).',
+ 'trusted_base': LEAN_TB + ['extract/ (tables of C10 / C07)',
+ 'C compiler translation of the obiapat C sources',
+ 'brute-force Hamming matcher, IUPAC table and reverse complement written independently in harness/c11.go',
+ 'pkg/obitools/obipcr/verif_hooks.go (sets the option variables of obipcr)'],
  'modelled': 'pkg/obiapat/pcr.go (_Pcr both orientation blocks, _PCRSlice / PCRSlice, MakeOptions and the Option* setters), pkg/obitools/obipcr/pcr.go '
              '(fragmenting parameters of CLIPCR), pkg/obiiter/fragment.go (cutting loop of IFragments); through the imported models: pkg/obiapat pattern '
              'matcher (C10), pkg/obiseq Subsequence and ReverseComplement (C07)',
  'assumptions': ['primers of 1..63 positions, budgets <= 63 (C10 domain); no indels (PCR compiles its primers without)',
-                 'theorems: linear templates; strand symmetry: template over a,c,g,t,r,y,m,k,s,w,b,d,h,v,n (no u: open C10 finding) and complemented '
-                 'patterns = mirrored code lists (C10 oracle)',
-                 'a pair of sites yields an amplicon only when at least one symbol lies between them (touching sites are rejected by the code on purpose: '
-                 '"For when primers touch or overlap"); on a circular template the two sites must not overlap anywhere on the circle',
+                 'theorems: linear templates; strand symmetry: template over a,c,g,t,r,y,m,k,s,w,b,d,h,v,n (no u: open C10 finding) and complemented patterns '
+                 '= mirrored code lists (C10 oracle)',
+                 'a pair of sites yields an amplicon only when at least one symbol lies between them (touching sites are rejected by the code on purpose: "For '
+                 'when primers touch or overlap"); on a circular template the two sites must not overlap anywhere on the circle',
                  'circular window with flanks longer than the circle: not specified, excluded from the oracle',
                  'fragmented mode is compared as a set with the unfragmented result (duplicates in overlaps are counted, not flagged)']}
